@@ -1,4 +1,5 @@
 import Sqfs.Model.Obj
+import Sqfs.Model.C19Readers
 /-!
 Witnesses: the copy hooks of the pinned tree (`descCurrent`) violate C19.  Each statement is about the model
 of the *current* code, is decided by evaluation, and is replayed on the real code by `tools/checks/c19.py`
@@ -160,5 +161,37 @@ theorem garbled_copy_is_not_wellformed : ¬ WfDesc (descGarble .xattrWriter) := 
 theorem garbled_copy_not_equivalent :
     (match sqfsCopy descGarble 3 xwrHeap2.1 xwrHeap2.2 with
       | (h, some c) => decide (view h c = view h xwrHeap2.2) | _ => true) = false := by decide
+
+end Sqfs.Witness.C19
+
+namespace Sqfs.Witness.C19
+open Sqfs.C19R Sqfs.DataReader
+
+/-! ### why `copy_equiv_dataReader` needs the padding invariant of `get_block`, and what a prefix-only copy loses
+
+`data_reader_copy` carries over `*_blk_size` bytes of each cached block.  On a state that `get_block` cannot produce
+(bytes behind `data_blk_size` not zero) the copy differs from the original — the invariant is not decoration; and a hook
+that copies fewer bytes than `*_blk_size` (the seeded change C19-a1: the shorter of the two sizes) loses data even on
+reachable states. -/
+
+/-- not reachable: a 4-byte block with `data_blk_size = 2` and a non-zero byte behind it -/
+def unpaddedDR : DR := ⟨4, [], some ([1, 2, 3, 9], 2), 0, 0, none, 0⟩
+
+theorem unpadded_violates_invariant : cacheInv unpaddedDR = false := by decide
+theorem drCopy_differs_without_padding : decide (drCopy unpaddedDR = unpaddedDR) = false := by decide
+
+/-- `data_reader_copy` with both blocks copied up to the *smaller* of the two sizes -/
+def drCopyShort (d : DR) : DR :=
+  let n := match d.dataBlock, d.fragBlock with
+    | some a, some b => min a.2 b.2
+    | _, _ => 0
+  { d with dataBlock := d.dataBlock.map fun c => (Sqfs.MetaReader.overwrite (zeros d.blockSize) (c.1.take n), c.2),
+           fragBlock := d.fragBlock.map fun c => (Sqfs.MetaReader.overwrite (zeros d.blockSize) (c.1.take n), c.2) }
+
+/-- a reachable state (full data block, 2-byte fragment block): the short copy is not the original -/
+def twoBlocksDR : DR := ⟨4, [], some ([1, 2, 3, 4], 4), 0, 0, some ([7, 8, 0, 0], 2), 0⟩
+
+theorem twoBlocks_satisfies_invariant : cacheInv twoBlocksDR = true := by decide
+theorem short_copy_loses_data : decide (drCopyShort twoBlocksDR = twoBlocksDR) = false ∧ decide (drCopy twoBlocksDR = twoBlocksDR) = true := by decide
 
 end Sqfs.Witness.C19
